@@ -524,6 +524,15 @@ func main(a, b int8) int8 {
 	return (a + 1) % 3
 }
 `},
+	{"udiv-const-operand", `package main
+func main(a uint2, b uint2) (uint2, uint2) {
+	var v0 uint2 = ((uint2(0) - uint2(0)) % (a / uint2(3)))
+	return (v0 ^ (b ^ a)), (v0 - (a - v0))
+}
+`},
+	{"sdiv-const-narrow", `package main
+func main(a, b int2) int2 { return a / int3(1) }
+`},
 	{"sdiv-small", `package main
 func main(a, b int5) (int5, int5) {
 	return a / b, a % b
